@@ -255,35 +255,66 @@ def same(op, impl, model):
 
 
 def compare(opsfile, workdir, dump=False, release=False, op_timeout=20):
-    """runs both sides. returns dict(ok, index, op, impl, model, n, impl_status)"""
+    """single process case: see compare_segments"""
+    return compare_segments([ops_of(opsfile)], workdir, dump=dump, release=release, op_timeout=op_timeout)
+
+
+def compare_segments(segments, workdir, dump=False, release=False, op_timeout=20):
+    """runs the implementation (one process per segment, same directory) and the model (the
+    concatenation). returns dict(ok, index, op, impl, model, n, impl_status, ...).
+    index counts ops over the concatenation."""
     shutil.rmtree(workdir, ignore_errors=True)
     os.makedirs(workdir, exist_ok=True)
-    ops = ops_of(opsfile)
-    il, ist = run_impl(opsfile, os.path.join(workdir, 'impl'), dump=os.path.join(workdir, 'impl_dump') if dump else None,
-                       release=release, op_timeout=op_timeout)
-    ml, mst = run_model(opsfile, dump=os.path.join(workdir, 'model_dump') if dump else None)
-    res = {'ok': True, 'n': len(ops), 'impl_status': ist, 'model_status': mst}
+    allops = [l for seg in segments for l in seg if l.strip() and not l.startswith('#')]
+    mf = os.path.join(workdir, 'model.ops')
+    write_ops(mf, allops)
+    ml, mst = run_model(mf, dump=os.path.join(workdir, 'model_dump') if dump else None)
+    res = {'ok': True, 'n': len(allops), 'impl_status': 'ok', 'model_status': mst, 'impl_lines': [], 'model_lines': ml}
     if mst != 'ok':
-        res.update(ok=False, index=len(ml), op=ops[len(ml)] if len(ml) < len(ops) else '', impl='', model='MODEL ' + mst)
+        res.update(ok=False, index=len(ml), op=allops[len(ml)] if len(ml) < len(allops) else '', impl='', model='MODEL ' + mst)
         return res
-    for i, op in enumerate(ops):
-        m = ml[i] if i < len(ml) else 'MISSING'
-        if i >= len(il):
-            # the implementation died (crash / kill9 / hang) at op i
-            if op.split()[0] == 'kill9':
-                break
-            res.update(ok=False, index=i, op=op, impl=ist, model=m)
-            return res
-        if il[i] == 'hang' and i == len(il) - 1 and ist == 'hang':
-            if m == 'hang':
-                break
-            res.update(ok=False, index=i, op=op, impl='hang', model=m)
-            return res
-        if not same(op, il[i], m):
-            res.update(ok=False, index=i, op=op, impl=il[i], model=m)
-            return res
-    res['impl_lines'] = il
-    res['model_lines'] = ml
+    base = 0
+    limited = False          # RLIMIT_FSIZE lowered: flush/sync may report an error
+    fault_pending = False    # a flush failed: the disk is indeterminate until the next successful flush
+    for si, seg in enumerate(segments):
+        ops = [l for l in seg if l.strip() and not l.startswith('#')]
+        f = os.path.join(workdir, 'seg%d.ops' % si)
+        write_ops(f, ops)
+        il, ist = run_impl(f, os.path.join(workdir, 'impl'), dump=os.path.join(workdir, 'impl_dump') if dump else None,
+                           release=release, op_timeout=op_timeout)
+        res['impl_lines'] += il
+        res['impl_status'] = ist
+        for i, op in enumerate(ops):
+            gi = base + i
+            m = ml[gi] if gi < len(ml) else 'MISSING'
+            kind = op.split()[0]
+            if i >= len(il):
+                if kind == 'kill9':
+                    break
+                res.update(ok=False, index=gi, op=op, impl=ist, model=m)
+                return res
+            got = il[i]
+            if got == 'hang' and i == len(il) - 1 and ist == 'hang':
+                if m == 'hang':
+                    break
+                res.update(ok=False, index=gi, op=op, impl='hang', model=m)
+                return res
+            if kind == 'limit':
+                limited = True
+            elif kind == 'unlimit':
+                limited = False
+            if kind in ('flush', 'syncall', 'syncdata', 'dbsyncall', 'dbsyncdata'):
+                if limited and got.startswith('err'):
+                    fault_pending = True
+                    continue
+                if got == 'ok':
+                    fault_pending = False
+            if kind in ('snap', 'cpdir') and fault_pending:
+                continue
+            if not same(op, got, m):
+                res.update(ok=False, index=gi, op=op, impl=got, model=m)
+                return res
+        base += len(ops)
     return res
 
 
